@@ -12,7 +12,19 @@ func init() { register("admit", famAdmit) }
 
 func famAdmit(args []string, out *bufio.Writer) error {
 	fs := newFlags("admit")
+	scnFile := fs.String("scnfile", "", "run exactly the admit scenarios of this file")
 	fs.Parse(args)
+	if *scnFile != "" {
+		kvs, err := readScnFile(*scnFile, "admit")
+		if err != nil {
+			return err
+		}
+		for _, kv := range kvs {
+			admitCase(out, atoi(kv["gen"]), kv["hasop"] == "1", kv["hasw"] == "1", kv["lim"] == "1",
+				atou(kv["maxcap"]), atou(kv["cost"]), atou(kv["maxatt"]), atou(kv["att"]))
+		}
+		return nil
+	}
 	maxCaps := []uint32{0, 1, 5, 4294967295}
 	for gen := 1; gen <= 2; gen++ {
 		for hasOp := 0; hasOp <= 1; hasOp++ {
